@@ -108,7 +108,12 @@ def scan(state, groups, tid):
                 a, b = f1[n][j], f2[n][j]
                 if np.isfinite(a) and np.isfinite(b):
                     eq["steady." + n] = E.e8([b, -a], max(np.nanmax(np.abs(f1[n])), 1e-300) * 1e-3)
-            ev.append({"k": "Pt", "tid": tid, "reg": "all", "fin": True, "smooth": False, "x": E.sl(1.0), "v": {}, "bal": {}, "eq": eq, "ineq": {}})
+            # the thermodynamic fields of the public call at this point (C03: p = (gamma-1) rho e, e = Cv T_material)
+            tn = "temperature" if "temperature" in f1 else "temperature_mat"
+            v = {}
+            if all(np.isfinite(f1[n][j]) for n in ("pressure", "density", "specific_internal_energy", tn)):
+                v = {"p": E.sl(f1["pressure"][j]), "rho": E.sl(f1["density"][j]), "e": E.sl(f1["specific_internal_energy"][j]), "T": E.sl(f1[tn][j])}
+            ev.append({"k": "Pt", "tid": tid, "reg": "all", "fin": True, "smooth": False, "x": E.sl(1.0), "v": v, "bal": {}, "eq": eq, "ineq": {}})
             stats["points"] += 1
     ev.append({"k": "End", "tid": tid})
     return ev, stats
